@@ -1828,6 +1828,18 @@ def cleanup_rules(ctx, crate, info, conv, label):
         if not (isinstance(v, ENode) and v.origin == ('res', 'Err', 0)):
             ctx.add(['C09'], 'O8', fmt_span(end[1]['span']), 'resume_unwind is not given the caught payload', key='payload-value')
             ok_pay = False
+    # … and the payload is re-thrown as it was caught: before resume_unwind it is at most looked at
+    PAYLOAD_READS = ('::is', '::downcast_ref', 'Deref>::deref', '::as_ref', '::type_id', 'Debug>::fmt')
+    for pt in by_case['panic']:
+        for (bb_, tm_, av_, snap_) in pt['calls']:
+            if tm_ is pt['end'][1] if pt['end'][0] == 'diverge' else False:
+                continue
+            if any(isinstance(a_, ENode) and a_.origin and tuple(a_.origin[:3]) == ('res', 'Err', 0) for a_ in av_):
+                cp_ = callee_path(tm_) or ''
+                if cp_ == 'std::panic::resume_unwind' or cp_.endswith(PAYLOAD_READS):
+                    continue
+                ctx.add(['C09'], 'O8', fmt_span(tm_['span']), 'the caught panic payload is handed to `%s` before it is re-thrown: the caller may receive an altered payload, not the very one the converter panicked with' % cp_.split('::')[-1], key='payload-touched|%s' % cp_.split('::')[-1])
+                ok_pay = False
     if ok_pay:
         disc('O8', b.span(), 'resume_unwind(payload) with the Box moved out of catch_unwind\'s Err on every panic path')
         ctx.inst('O8', 'panic payload passed through [%s]' % label)
